@@ -321,6 +321,35 @@ theorem C02_affine_exact {κ ι : Type} [Fintype κ] [Fintype ι] (hN : 0 < Fint
     · simp [sMean, Finset.sum_const, hN']
     · simp [sCov, sMean, Finset.sum_const, hN']
 
+/-- lower-triangular 3×3 factor as an index function -/
+def L3 (l11 l21 l22 l31 l32 l33 : ℝ) : Fin 3 → Fin 3 → ℝ :=
+  ![![l11, 0, 0], ![l21, l22, 0], ![l31, l32, l33]]
+
+/-- symmetric 3×3 unit-diagonal correlation matrix as an index function -/
+def R3 (r21 r31 r32 : ℝ) : Fin 3 → Fin 3 → ℝ :=
+  ![![1, r21, r31], ![r21, 1, r32], ![r31, r32, 1]]
+
+/-- **C02 (three sources, headline).** For a positive-definite correlation assignment
+    (ρ21, ρ31, ρ32) the factor the library computes makes the draws carry exactly the moments the
+    statement names whenever the offsets are standardised in the sample: sample mean μ_a, sample
+    variances σ_a², sample correlations ρ_ab — for every formula evaluated on them afterwards. -/
+theorem C02_draws_carry_correlations3 {κ : Type} [Fintype κ] (hN : 0 < Fintype.card κ)
+    (μ σ : Fin 3 → ℝ) (r21 r31 r32 : ℝ) (hpd : PosDef3 1 r21 1 r31 r32 1)
+    (Z : Fin 3 → κ → ℝ)
+    (hm : ∀ k, sMean (Z k) = 0) (hc : ∀ k l, sCov (Z k) (Z l) = if k = l then 1 else 0) :
+    ∃ l11 l21 l22 l31 l32 l33,
+      chol3 1 r21 1 r31 r32 1 = some (l11, l21, l22, l31, l32, l33) ∧
+      ∀ a b, sMean (draws μ σ (L3 l11 l21 l22 l31 l32 l33) Z a) = μ a ∧
+        sCov (draws μ σ (L3 l11 l21 l22 l31 l32 l33) Z a) (draws μ σ (L3 l11 l21 l22 l31 l32 l33) Z b)
+          = σ a * σ b * R3 r21 r31 r32 a b := by
+  obtain ⟨l11, l21, l22, l31, l32, l33, hc3, _, _, _, e1, e2, e3, e4, e5, e6⟩ :=
+    C02_chol3_correct 1 r21 1 r31 r32 1 hpd
+  refine ⟨l11, l21, l22, l31, l32, l33, hc3, ?_⟩
+  intro a b
+  apply C02_standardised_draws hN μ σ _ _ Z hm hc
+  intro a b
+  fin_cases a <;> fin_cases b <;> simp [Fin.sum_univ_three, L3, R3] <;> nlinarith
+
 /-! ## the reported result, tied to the model's list functions -/
 
 instance : IsFin ℝ := ⟨fun _ => true⟩
